@@ -368,7 +368,7 @@ pub fn parse_datetime_partial(buf: &[u8]) -> Result<DicomDateTime> {
 
     let time_zone = match buf.len() {
         0 => None,
-        len if len > 4 => {
+        5 => {
             let tz_sign = buf[0];
             let buf = &buf[1..];
             let tz_h: u32 = read_number(&buf[0..2])?;
@@ -392,6 +392,8 @@ pub fn parse_datetime_partial(buf: &[u8]) -> Result<DicomDateTime> {
                 c => return InvalidTimeZoneSignTokenSnafu { value: c }.fail(),
             }
         }
+        // the UTC offset is the last component: nothing may follow it
+        len if len > 5 => return InvalidDateTimeZoneSnafu.fail(),
         _ => return UnexpectedEndOfElementSnafu.fail(),
     };
 
